@@ -153,8 +153,12 @@ def hist_cases(draw):
     n = draw(st.integers(3, 14))
     ops = []
     for _ in range(n):
-        r = draw(st.integers(0, 9))
-        if r <= 3:
+        r = draw(st.integers(0, 11))
+        if r == 10:
+            ops.append(["clear"])
+        elif r == 11:
+            ops.append(["undo_drop"])
+        elif r <= 3:
             nleaf = draw(st.sampled_from([1, 1, 2, 3]))
             ops.append(["do", [list(draw(st.tuples(st.integers(0, 6), st.integers(0, 7), st.integers(0, 7)))) for _ in range(nleaf)], draw(st.booleans())])
         elif r <= 5:
@@ -327,6 +331,28 @@ def _eval_history(case, env):
                     break
                 if reopened_rich:
                     after_reopen_moves += 1
+            elif op[0] == "clear":
+                # forget the whole history: the tree stays, both lists become (and must stay, across sessions) empty
+                project.history.clear()
+                states = [states[pos]]
+                pos = 0
+                out.labels["history:clear"] += 1
+            elif op[0] == "undo_drop":
+                # undo the last change without keeping it for redo (only asked when nothing is redoable, see C11's finding)
+                if pos == 0 or pos != len(states) - 1:
+                    continue
+                try:
+                    project.history.undo(drop=True)
+                except Exception as e:
+                    out.violation("C12:history:undo_drop_raised:%s" % type(e).__name__, repr(e), sub)
+                    break
+                states.pop()
+                pos -= 1
+                out.evals += 1
+                out.labels["history:undo_drop"] += 1
+                if fsmodel.snapshot(root) != states[pos]:
+                    out.violation("C12:history:undo_drop_tree", fsmodel.diff_trees(states[pos], fsmodel.snapshot(root)), sub)
+                    break
             else:  # reopen
                 before = _lists_data(project)
                 project.close()
